@@ -41,6 +41,10 @@ def extractable_positions(draft, schema):
             continue
         if isinstance(sub, bool) and draft <= 4:
             continue
+        # the literal boolean form of additionalProperties / additionalItems is reported at the
+        # container (one error), a schema at each member: not a difference caused by $ref
+        if isinstance(sub, bool) and path[-1] in ("additionalProperties", "additionalItems"):
+            continue
         if path[0] == "definitions":
             continue
         # Draft 3: `required` inside a property subschema is read lexically by the parent
@@ -70,7 +74,7 @@ def transform_local(rng, draft, s0, max_refs=3, names=None, siblings=True, chain
     slots = []
     nrefs = 0
     chains = 0
-    used = set()
+    used = set(s0.get("definitions", {})) if isinstance(s0.get("definitions"), dict) else set()
     for _ in range(rng.randrange(1, max_refs + 1)):
         pos = extractable_positions(draft, S)
         pos = [p for p in pos if not _inside_ref_object(S, p)]
@@ -134,3 +138,433 @@ def ref_positions(schema, path=()):
         for i, v in enumerate(schema):
             out.extend(ref_positions(v, path + (i,)))
     return out
+
+
+# ======================================================================
+# inline(): own unfolding of references (independent of /repo), used as the
+# construction self-check and as S0 for recursive templates.
+
+class InlineError(Exception):
+    pass
+
+
+def inline(draft, S, docs=None, budget=12, base=""):
+    """Return S with every reference object replaced by (the inlined form
+    of) the schema it designates, following at most `budget` nested hops;
+    beyond that the always-true schema {} is written.  `docs` maps absolute
+    document URLs (no fragment) to documents.  Resolution uses
+    vf/model/uri.py only."""
+    idkw = IDKW[draft]
+    docs = dict(docs or {})
+    root_base = base
+    if isinstance(S, dict) and isinstance(S.get(idkw), str) and S[idkw] and "$ref" not in S:
+        root_base = U.resolve(base, S[idkw]) if base else S[idkw]
+    docs.setdefault(U.norm_key(root_base), S)
+    docs.setdefault(U.norm_key(base), S)
+
+    def go(node, cur_base, left):
+        if isinstance(node, list):
+            return [go(x, cur_base, left) for x in node]
+        if not isinstance(node, dict):
+            return node
+        if isinstance(node.get("$ref"), str):
+            if left <= 0:
+                return {}
+            url = U.resolve(cur_base, node["$ref"]) if cur_base else node["$ref"]
+            doc_url, frag = U.defrag(url)
+            if doc_url not in docs:
+                raise InlineError("no document %r" % doc_url)
+            try:
+                target = U.ptr_walk(docs[doc_url], frag)
+            except U.PointerError as e:
+                raise InlineError(str(e))
+            return go(target, url, left - 1)
+        sid = node.get(idkw)
+        if isinstance(sid, str) and sid:
+            cur_base = U.resolve(cur_base, sid) if cur_base else sid
+        return {k: go(v, cur_base, left) for k, v in node.items()}
+
+    return go(S, base, budget)
+
+
+def strip_inert(draft, S):
+    """Remove what the transform adds and the comparison ignores: definitions,
+    x-slots, id keywords (inert without references)."""
+    idkw = IDKW[draft]
+    if isinstance(S, list):
+        return [strip_inert(draft, x) for x in S]
+    if isinstance(S, dict):
+        return {k: strip_inert(draft, v) for k, v in S.items() if k not in ("definitions", "x-slots", idkw)}
+    return S
+
+
+# ======================================================================
+# full arrangements
+
+ROOT_URL = "http://root.example/dir/root.json"
+STORE_DIR = "http://store.example/lib/"
+HANDLER_DIR = "vf://handler.example/lib/"
+
+
+def _bases(draft, S, root_base):
+    """Map schema-position path -> base URI in effect *inside* the subschema
+    at that path (own id applied).  Only schema positions are visited, so
+    data that merely looks like an id (a property or dependency named "id")
+    is never taken for one."""
+    idkw = IDKW[draft]
+    out = {}
+    for path, node in walk_subschemas(draft, S):
+        path = tuple(path)
+        if not path:
+            base = root_base
+        else:
+            q = path[:-1]
+            while q not in out:
+                q = q[:-1]
+            base = out[q]
+            if isinstance(node, dict):
+                sid = node.get(idkw)
+                if isinstance(sid, str) and sid and "$ref" not in node:
+                    base = U.resolve(base, sid) if base else sid
+        out[path] = base
+    return out
+
+
+def base_at(bases, path):
+    """Base in effect at a reference object that stands at `path`: that of the
+    closest enclosing schema position (a reference object's own id is ignored)."""
+    q = tuple(path[:-1])
+    while q not in bases:
+        q = q[:-1]
+    return bases[q]
+
+
+def has_nested_id(draft, S):
+    idkw = IDKW[draft]
+    for path, node in walk_subschemas(draft, S):
+        if path and isinstance(node, dict) and isinstance(node.get(idkw), str):
+            return True
+    return False
+
+
+def _spell(rng, base, target):
+    """A reference string that resolves (by our own resolver) from `base` to `target`."""
+    cands = [target]
+    tdoc, tfrag = U.defrag(target)
+    bdoc, _ = U.defrag(base)
+    if base and tdoc == bdoc and "#" in target:
+        cands.append("#" + tfrag)
+    if base.startswith("http://") and tdoc.startswith("http://"):
+        bs = U.split(bdoc)
+        ts = U.split(tdoc)
+        if bs[1] == ts[1]:
+            bdir = bs[2].rsplit("/", 1)[0] + "/"
+            tpath = ts[2]
+            suffix = ("#" + tfrag) if "#" in target else ""
+            if tpath.startswith(bdir) and tpath != bdir:
+                cands.append(tpath[len(bdir):] + suffix)
+                cands.append("./" + tpath[len(bdir):] + suffix)
+            cands.append(tpath + suffix)                 # absolute-path reference
+            up = bdir.rstrip("/").rsplit("/", 1)[0] + "/"
+            if up and tpath.startswith(up) and bdir != "/":
+                cands.append("../" + tpath[len(up):] + suffix)
+    ok = []
+    for c in cands:
+        if c == "":
+            continue
+        got = U.resolve(base, c) if base else c
+        if got == target or (U.defrag(got)[0] == tdoc and U.defrag(got)[1] == tfrag):
+            ok.append(c)
+    return rng.choice(ok) if ok else target
+
+
+def arrange(rng, draft, s0, mode=None):
+    """Full extraction transform.  Returns an Arrangement or None."""
+    if not isinstance(s0, dict):
+        return None
+    idkw = IDKW[draft]
+    mode = mode or rng.choice(["noid", "rootid", "rootid", "rootid#", "nested"])
+    S = dict(s0)
+    S.pop("$ref", None)
+    root_base = ""
+    if mode != "noid":
+        rid = ROOT_URL + ("#" if mode == "rootid#" else "")
+        S = dict({idkw: rid}, **S)
+        root_base = rid
+    info = {"mode": mode, "refs": 0, "chains": 0, "placements": [], "spellings": [], "names": []}
+    # nested ids on the evaluation path (only under an absolute root base)
+    if mode == "nested":
+        subs = [p for p, s in walk_subschemas(draft, S) if p and isinstance(s, dict) and p[0] != "definitions"
+                and not (draft == 3 and "required" in s)]
+        rng.shuffle(subs)
+        for p in subs[:rng.randrange(1, 3)]:
+            node = get_at(S, list(p))
+            if idkw in node:
+                continue
+            nid = rng.choice(["http://store.example/lib/sub/", "sub/", "http://other.example/x/y.json", "sub/inner.json",
+                              "../up.json", "http://store.example/lib/"])
+            S = set_at(S, list(p), dict({idkw: nid}, **node))
+            info.setdefault("nested_ids", []).append([list(p), nid])
+    s0_with_ids = S
+    store = {}
+    handler_docs = {}
+    defs = {}
+    slots = []
+    used = set()
+    chosen = []
+    for _ in range(rng.randrange(1, 5)):
+        pos = extractable_positions(draft, S)
+        pos = [p for p in pos if not any(p[:len(c)] == c or c[:len(p)] == p for c in chosen)]
+        if not pos:
+            break
+        path = rng.choice(pos)
+        chosen.append(path)
+        sub = get_at(S, path)
+        bases = _bases(draft, S, root_base)
+        base_here = base_at(bases, path)
+        # the reference object replaces `sub`; the base in effect at the reference object is the base of its parent
+        name = rng.choice([n for n in HOSTILE_NAMES if n not in used] or ["n%d" % len(used)])
+        used.add(name)
+        r = rng.random()
+        if r < 0.4 or (root_base == "" and r < 0.55):
+            placement = "definitions" if rng.random() < 0.8 else "slot"
+            if placement == "definitions":
+                defs[name] = sub
+                tokens = ["definitions", name]
+            else:
+                slots.append(sub)
+                tokens = ["x-slots", str(len(slots) - 1)]
+            if root_base == "":
+                target = "#" + _frag(rng, tokens)
+                base_for_spell = ""
+            else:
+                target = U.defrag(root_base)[0] + "#" + _frag(rng, tokens)
+                base_for_spell = base_here
+        elif r < 0.85:
+            placement = "store"
+            url = STORE_DIR + "doc%d.json" % len(store)
+            if rng.random() < 0.5:
+                doc = sub
+                target = url + rng.choice(["", "#"])
+                if isinstance(doc, dict) and rng.random() < 0.4 and idkw not in doc:
+                    doc = dict({idkw: url}, **doc)
+            else:
+                doc = {"definitions": {name: sub}}
+                if rng.random() < 0.4:
+                    doc = dict({idkw: url}, **doc)
+                target = url + "#" + _frag(rng, ["definitions", name])
+            # second-level references inside the store document
+            if isinstance(doc, dict) and rng.random() < 0.4 and not has_nested_id(draft, doc):
+                inner = transform_local(rng, draft, doc, max_refs=2, siblings=False)
+                if inner.info.get("refs"):
+                    doc = inner.schema
+                    info["refs"] += inner.info["refs"]
+                    info["inner_store_refs"] = info.get("inner_store_refs", 0) + inner.info["refs"]
+            store[url] = doc
+            base_for_spell = base_here
+        else:
+            placement = "handler"
+            url = HANDLER_DIR + "h%d.json" % len(handler_docs)
+            handler_docs[url] = sub if rng.random() < 0.5 else {"definitions": {name: sub}}
+            target = url if handler_docs[url] is sub else url + "#" + _frag(rng, ["definitions", name])
+            base_for_spell = ""     # absolute references only under a custom scheme
+        ref_str = _spell(rng, base_for_spell, target) if base_for_spell else target
+        if ref_str == "":
+            ref_str = target
+        ref = {"$ref": ref_str}
+        if rng.random() < 0.3 and root_base == "" or (rng.random() < 0.3 and root_base):
+            # chain through a definition of the root document
+            name2 = rng.choice([n for n in HOSTILE_NAMES if n not in used] or ["c%d" % len(used)])
+            used.add(name2)
+            root_doc = U.defrag(root_base)[0]
+            # the chained definition lives in the root document: base there is the root base
+            inner_ref = {"$ref": _spell(rng, root_base, target) if root_base else target}
+            if root_base == "" and placement in ("definitions", "slot"):
+                inner_ref = {"$ref": target}
+            defs[name2] = inner_ref
+            t2 = (root_doc + "#" if root_base else "#") + _frag(rng, ["definitions", name2])
+            ref = {"$ref": _spell(rng, base_here, t2) if root_base else t2}
+            info["chains"] += 1
+        if rng.random() < 0.35:
+            ref = dict(ref)
+            ref[rng.choice(["type", "minimum", "enum", "title", "maxLength", "items", "required" if draft >= 4 else "pattern"])] = \
+                rng.choice(["null", 10 ** 6, [], "t", 0]) if True else None
+            k = list(ref)
+            if rng.random() < 0.5:
+                ref = {kk: ref[kk] for kk in reversed(k)}
+            # keep well-formed values for the few keywords that need them
+            for kk, vv in list(ref.items()):
+                if kk == "items" and not isinstance(vv, (dict, list)):
+                    ref[kk] = {"type": "null"}
+                if kk == "required" and not isinstance(vv, list):
+                    ref[kk] = ["__never__"]
+                if kk == "enum" and not isinstance(vv, list):
+                    ref[kk] = ["__never__"]
+                if kk == "type" and vv not in ("null",):
+                    ref[kk] = "null"
+                if kk in ("minimum", "maxLength") and not isinstance(vv, int):
+                    ref[kk] = 10 ** 6 if kk == "minimum" else 0
+                if kk == "pattern" and not isinstance(vv, str):
+                    ref[kk] = "^__never__$"
+                if kk == "title" and not isinstance(vv, str):
+                    ref[kk] = "t"
+            info["siblings"] = info.get("siblings", 0) + 1
+        S = set_at(S, list(path), ref)
+        info["refs"] += 1
+        info["placements"].append(placement)
+        info["spellings"].append(ref_str)
+        info["names"].append(name)
+    if not info["refs"]:
+        return None
+    S = dict(S)
+    if defs:
+        S["definitions"] = defs
+    if slots:
+        S["x-slots"] = slots
+    return Arrangement(draft, S, s0_with_ids, store=store, handler_docs=handler_docs, info=info)
+
+
+# ======================================================================
+# recursive templates
+
+def recursive_templates(rng, draft, leaf):
+    """Yield (name, S, store) for recursive schemas whose recursion always
+    descends into the instance.  `leaf` is an assertion schema placed at
+    every node."""
+    idkw = IDKW[draft]
+    yield "tree-through-hash", {"properties": {"v": leaf, "kids": {"items": {"$ref": "#"}}}}, {}
+    yield "list-through-definition", {
+        "definitions": {"n": {"properties": {"v": leaf, "next": {"$ref": "#/definitions/n"}}}},
+        "properties": {"head": {"$ref": "#/definitions/n"}}}, {}
+    yield "mutual", {
+        "definitions": {"a": {"properties": {"v": leaf, "b": {"$ref": "#/definitions/b"}}},
+                        "b": {"items": {"$ref": "#/definitions/a"}}},
+        "properties": {"head": {"$ref": "#/definitions/a"}, "kids": {"$ref": "#/definitions/b"}}}, {}
+    yield "through-store-and-back", {
+        idkw: ROOT_URL, "definitions": {"x": {"properties": {"v": leaf, "next": {"$ref": STORE_DIR + "node.json"}}}},
+        "properties": {"head": {"$ref": "#/definitions/x"}}}, {
+        STORE_DIR + "node.json": {"properties": {"v": leaf, "back": {"$ref": ROOT_URL + "#/definitions/x"},
+                                                 "self": {"items": {"$ref": "#"}}}}}
+    yield "relative-between-store-docs", {
+        idkw: ROOT_URL, "items": {"$ref": "../lib2/a.json"}}, {
+        "http://root.example/lib2/a.json": {"properties": {"v": leaf, "b": {"$ref": "b.json#/definitions/q"}}},
+        "http://root.example/lib2/b.json": {"definitions": {"q": {"items": {"$ref": "a.json"}}}}}
+    if draft >= 4:
+        yield "anyOf-recursion", {
+            "definitions": {"t": {"anyOf": [leaf, {"type": "array", "items": {"$ref": "#/definitions/t"}}]}},
+            "$ref": "#/definitions/t"}, {}
+    yield "metaschema", {"properties": {"s": {"$ref": "http://json-schema.org/draft-0%d/schema#" % draft}}}, {}
+
+
+def recursive_instance(rng, leafgen, depth):
+    """Instances shaped like the templates (head/next/kids/v/b/back/self/s)."""
+    if depth <= 0:
+        return leafgen()
+    r = rng.random()
+    out = {}
+    if rng.random() < 0.8:
+        out["v"] = leafgen()
+    for k in ("kids", "self"):
+        if rng.random() < 0.45:
+            out[k] = [recursive_instance(rng, leafgen, depth - 1) for _ in range(rng.randrange(0, 3))]
+    for k in ("head", "next", "b", "back"):
+        if rng.random() < 0.5:
+            out[k] = recursive_instance(rng, leafgen, depth - 1)
+    if r < 0.15:
+        return [recursive_instance(rng, leafgen, depth - 1) for _ in range(rng.randrange(0, 3))]
+    return out
+
+
+def depth_of(x):
+    if isinstance(x, dict):
+        return 1 + max([depth_of(v) for v in x.values()] or [0])
+    if isinstance(x, list):
+        return 1 + max([depth_of(v) for v in x] or [0])
+    return 0
+
+
+# ======================================================================
+# instance-guided unfolding (S0 for recursive schemas)
+
+_IN_PLACE_LIST = ("allOf", "anyOf", "oneOf")
+_IN_PLACE_ONE = ("not", "if", "then", "else")
+
+
+def unfold_for(draft, S, docs, insts, base="", max_inplace=12):
+    """A reference-free schema that is S with every reference replaced by its
+    target *wherever one of the instances `insts` can reach it*; references in
+    subschemas no instance reaches are replaced by {} (they are never
+    evaluated).  Terminates because every descent consumes instance depth and
+    in-place hops are capped (in-place cycles are outside the property)."""
+    idkw = IDKW[draft]
+    docs = dict(docs or {})
+    root_base = base
+    if isinstance(S, dict) and isinstance(S.get(idkw), str) and S[idkw] and "$ref" not in S:
+        root_base = U.resolve(base, S[idkw]) if base else S[idkw]
+    docs.setdefault(U.norm_key(root_base), S)
+    docs.setdefault(U.norm_key(base), S)
+
+    def children(insts, pick):
+        out = []
+        for i in insts:
+            out.extend(pick(i))
+        return out
+
+    def go(node, cur, insts, hops):
+        if node is True or node is False or not isinstance(node, dict):
+            return node
+        if isinstance(node.get("$ref"), str):
+            if not insts:
+                return {}
+            if hops >= max_inplace:
+                raise InlineError("in-place reference cycle")
+            url = U.resolve(cur, node["$ref"]) if cur else node["$ref"]
+            doc_url, frag = U.defrag(url)
+            if doc_url not in docs:
+                raise InlineError("no document %r" % doc_url)
+            try:
+                target = U.ptr_walk(docs[doc_url], frag)
+            except U.PointerError as e:
+                raise InlineError(str(e))
+            return go(target, url, insts, hops + 1)
+        sid = node.get(idkw)
+        if isinstance(sid, str) and sid:
+            cur = U.resolve(cur, sid) if cur else sid
+        out = {}
+        for k, v in node.items():
+            if k == idkw or k == "definitions":
+                continue
+            if k in _IN_PLACE_LIST and isinstance(v, list) and draft >= 4:
+                out[k] = [go(s, cur, insts, hops) for s in v]
+            elif k in _IN_PLACE_ONE and isinstance(v, (dict, bool)) and draft >= 4:
+                out[k] = go(v, cur, insts, hops)
+            elif k == "extends" and draft == 3:
+                out[k] = [go(s, cur, insts, hops) for s in v] if isinstance(v, list) else go(v, cur, insts, hops)
+            elif k in ("type", "disallow") and draft == 3 and isinstance(v, list):
+                out[k] = [go(s, cur, insts, hops) if isinstance(s, dict) else s for s in v]
+            elif k == "dependencies" and isinstance(v, dict):
+                out[k] = {n: (go(s, cur, [i for i in insts if isinstance(i, dict) and n in i], hops)
+                              if isinstance(s, (dict, bool)) else s) for n, s in v.items()}
+            elif k == "properties" and isinstance(v, dict):
+                out[k] = {n: go(s, cur, children(insts, lambda i, n=n: [i[n]] if isinstance(i, dict) and n in i else []), 0)
+                          for n, s in v.items()}
+            elif k == "patternProperties" and isinstance(v, dict):
+                out[k] = {p: go(s, cur, children(insts, lambda i: list(i.values()) if isinstance(i, dict) else []), 0)
+                          for p, s in v.items()}
+            elif k == "additionalProperties" and isinstance(v, (dict, bool)):
+                out[k] = go(v, cur, children(insts, lambda i: list(i.values()) if isinstance(i, dict) else []), 0)
+            elif k == "propertyNames" and isinstance(v, (dict, bool)):
+                out[k] = go(v, cur, children(insts, lambda i: list(i.keys()) if isinstance(i, dict) else []), 0)
+            elif k == "items":
+                if isinstance(v, list):
+                    out[k] = [go(s, cur, children(insts, lambda i, j=j: [i[j]] if isinstance(i, list) and j < len(i) else []), 0)
+                              for j, s in enumerate(v)]
+                else:
+                    out[k] = go(v, cur, children(insts, lambda i: list(i) if isinstance(i, list) else []), 0)
+            elif k in ("additionalItems", "contains") and isinstance(v, (dict, bool)):
+                out[k] = go(v, cur, children(insts, lambda i: list(i) if isinstance(i, list) else []), 0)
+            else:
+                out[k] = v
+        return out
+
+    return go(S, base, list(insts), 0)
